@@ -578,6 +578,14 @@ class AllocSuite(Suite):
                                 "although its traffic (first use of the thread, 64th enqueue, map growth) does not call for it" % (n, op))
                 elif cat == "ready-queue-node":
                     msgs.append("ready-queue-node: the thread-local ready queue of coro_queue allocated %d bytes during `%s`" % (n, op))
+                elif cat == "resolve-suspend-point-growth":
+                    # the second listed finding — but only a resolution that really releases more than INLINE coroutines explains it
+                    if n < 2 * INLINE:
+                        msgs.append("growth: the suspend point of a resolution allocated a handle array of %d cells, i.e. while holding only %d "
+                                    "handles (up to %d must be carried without allocation), during `%s`" % (n, n // 2, INLINE, op))
+                    else:
+                        msgs.append("resolve-suspend-point-growth: resolving a future with more than %d coroutine waiters allocated a handle "
+                                    "array of %d cells during `%s`" % (INLINE, n, op))
                 elif cat == "frame":
                     if not heap_create:
                         msgs.append("frame: a coroutine frame was allocated by `%s`, which creates no heap-frame coroutine" % op)
